@@ -68,10 +68,14 @@ func genC14(rng *rand.Rand, tier string) *C14Plan {
 	hookActions := rng.IntN(3) == 0
 	ns := 1 + rng.IntN(4)
 	if hookActions {
-		ns = 0
+		ns = rng.IntN(2) // hooks that veto or replace, watched by at most one all-seeing subscriber
 	}
 	for i := 0; i < ns; i++ {
 		s := SubSpec{Prefix: rng.IntN(len(prefixPool)), Local: rng.IntN(3) != 0, Internal: rng.IntN(3) != 0, CancelAfter: -1, SameQueryAs: -1}
+		if hookActions {
+			p.Subs = append(p.Subs, SubSpec{Prefix: 0, Local: true, Internal: true, CancelAfter: -1, SameQueryAs: -1})
+			continue
+		}
 		if rng.IntN(3) == 0 {
 			s.Cond = genCond(rng, 1)
 		}
@@ -493,6 +497,43 @@ func checkC14(p *C14Plan, rc *simkit.RunCtx) {
 			rc.Fail("C14.feed-not-closed", "the feed was not closed after Cancel returned"+note, fmt.Sprintf("subscription %d", si))
 			return
 		}
+		withActions := false
+		for _, h := range s.hooks {
+			if h.spec.Action != "" {
+				withActions = true
+			}
+		}
+		if withActions {
+			// what a subscriber is shown of a put that a pre-put hook vetoed or replaced: nothing, or the replacement
+			for _, f := range ss.feed {
+				id := strings.TrimSuffix(f.ID, "#del")
+				if strings.HasPrefix(id, "replaced-by-") {
+					rc.Probe("replacement-delivered")
+					continue
+				}
+				var w *wrec
+				for _, x := range s.writes {
+					if x.ID == id {
+						w = x
+					}
+				}
+				if w == nil {
+					rc.Fail("C14.foreign-delivery", "a record was delivered that no writer wrote"+note, fmt.Sprintf("subscription %d: %s", si, id))
+					return
+				}
+				for hi, h := range s.hooks {
+					if h.spec.Action != "" && h.spec.PrePut && w.Kind == "put" && strings.HasPrefix(w.Key, prefixPool[h.spec.Prefix]) && (h.spec.Cond == nil || h.spec.Cond.eval(w.F)) {
+						what := "vetoed"
+						if h.spec.Action == "replace" {
+							what = "replaced"
+						}
+						rc.Fail("C14.hook-delivery", "a put that a pre-put hook had "+what+" was delivered to a subscriber in its original form", fmt.Sprintf("hook %d, put %s to %s", hi, w.ID, w.Key))
+						return
+					}
+				}
+			}
+			continue
+		}
 		count := map[string]int{}
 		pos := map[string]int{}
 		for i, f := range ss.feed {
@@ -715,6 +756,79 @@ func (s *c14State) checkHooks(note string) {
 				if n > 1 || (active && n != 1) {
 					rc.Fail("C14.hook-call-count", "a pre-get hook was not called exactly once for a matching get"+hnote, fmt.Sprintf("hook %d get %s: %d calls", hi, g.Key, n))
 					return
+				}
+			}
+		}
+	}
+	// post-get hooks: called once for every get whose loaded record matches - also when the loaded record is one that
+	// was deleted and is still kept in storage (shadow delete): the get then reports not-found after the hook has seen it
+	if len(p.Writers) == 1 {
+		type kst struct {
+			id      string
+			f       Fields
+			present bool // a record is in storage
+			deleted bool
+		}
+		state := map[string]*kst{}
+		type evt struct {
+			inv uint64
+			w   *wrec
+			get bool
+		}
+		var evs []evt
+		for _, w := range s.writes {
+			evs = append(evs, evt{w.Inv, w, false})
+		}
+		for _, g := range s.gets {
+			evs = append(evs, evt{g.Inv, g, true})
+		}
+		sort.Slice(evs, func(i, j int) bool { return evs[i].inv < evs[j].inv })
+		clean := true // no hook that vetoes or replaces interferes with what is stored
+		for _, h := range s.hooks {
+			if h.spec.Action != "" {
+				clean = false
+			}
+		}
+		for _, e := range evs {
+			if !clean {
+				break
+			}
+			w := e.w
+			switch {
+			case !e.get && w.Kind == "put" && w.OK:
+				state[w.Key] = &kst{id: w.ID, f: w.F, present: true}
+			case !e.get && w.Kind == "delete" && w.OK:
+				if st := state[w.Key]; st != nil {
+					st.deleted = true
+					st.present = p.Shadow
+				}
+			case e.get:
+				st := state[w.Key]
+				if st == nil || !st.present {
+					continue
+				}
+				for hi, h := range s.hooks {
+					if !h.spec.PostGet || !strings.HasPrefix(w.Key, prefixPool[h.spec.Prefix]) || (h.spec.Cond != nil && !h.spec.Cond.eval(st.f)) {
+						continue
+					}
+					if !(w.Inv > h.regRet && (h.cancelInv == 0 || w.Ret < h.cancelInv)) {
+						continue
+					}
+					n := 0
+					for _, c := range h.calls {
+						if c.Phase == "postget" && c.G == w.G && c.Seq > w.Inv && c.Seq < w.Ret {
+							n++
+						}
+					}
+					if n != 1 {
+						what := "a stored record"
+						if st.deleted {
+							what = "a deleted record that is still kept in storage"
+						}
+						rc.Fail("C14.hook-call-count", "a post-get hook was not called exactly once for a get that loaded "+what+" matching its query"+hnote, fmt.Sprintf("hook %d get %s: %d calls", hi, w.Key, n))
+						return
+					}
+					rc.Probe("post-get-hook-call-checked")
 				}
 			}
 		}
